@@ -166,8 +166,35 @@ func runC09(p *Prog, r *Report, tier string) {
 				}
 			}
 			// every send is dominated by the loop
+			// (the loop may itself stand under 'the set is a data set': then the only ways round it are the other set types)
 			for _, s := range sends {
-				if !loopHead.Dominates(s.Block()) {
+				if loopHead.Dominates(s.Block()) || dominates(loopHead.Instrs[0], s) {
+					continue
+				}
+				sendGuards := map[guard]bool{}
+				for _, g := range guardsOf(s.Block()) {
+					sendGuards[g] = true
+				}
+				nData := 0
+				for _, gd := range guardsOf(loopHead) {
+					if sendGuards[gd] {
+						continue
+					}
+					okGuard := false
+					for _, cf := range cmpForms(gd.If.Cond) {
+						if c, ok := cf.X.(*ssa.Call); ok && calleeName(&c.Call) == "iface:pkg/entities.Set.GetSetType" && c.Call.Value == ssa.Value(ss.Params[1]) {
+							if v, ok := constInt(cf.Y); ok && cf.Op == token.EQL && v == 1 && gd.Succ == cf.Succ {
+								okGuard = true
+							}
+						}
+					}
+					if okGuard {
+						nData++
+					} else {
+						why = "a send is reachable without passing the record loop"
+					}
+				}
+				if nData == 0 {
 					why = "a send is reachable without passing the record loop"
 				}
 			}
